@@ -104,3 +104,8 @@ Proof. repeat split; reflexivity. Qed.
 From SymfcG Require Import ShapesApi SkelApi.
 Theorem c09_facade_in_force : ShapesApi_as_recorded = true /\ SkelApi_as_recorded = true.
 Proof. repeat split; reflexivity. Qed.
+
+(** Further code on this property's path (the translation table behind C_trans comes from the symmetry search) is the recorded source: whole-function / skeleton match, regenerated on every run. *)
+From SymfcG Require Import ShapesSpg ShapesReps SkelSpg.
+Theorem c09_code_path3_in_force : ShapesSpg_as_recorded = true /\ ShapesReps_as_recorded = true /\ SkelSpg_as_recorded = true.
+Proof. repeat split; reflexivity. Qed.
